@@ -164,8 +164,9 @@ def run(ctx):
                         continue
                     a_, b_ = s[:k], s[k:]
                     s2 = classes[cname].concatenate([a_, b_])
-                    # concatenation does not carry scalars; compare per-sample fields only and continue with s
-                    check_fields(ctx, s2, cur_idx, x, has, cname, dict(case, ops=ops + [("split-concat", k)]), scal=None)
+                    # "concatenating the pieces of a partition restores the original": the per-sample fields, and what the set carries
+                    # as a whole (temperature, attached evidence) — both pieces carry the same values, so does their union
+                    check_fields(ctx, s2, cur_idx, x, has, cname, dict(case, ops=ops + [("split-concat", k)]), scal=scal, ns=nsname, width=width)
                     continue
             except Exception as e:
                 ctx.violation(f"op-raises:{kind}:{cname}:{nsname}:{type(e).__name__}", f"{kind} on {cname}/{nsname}/{width} raised {type(e).__name__}: {str(e)[:150]}",
